@@ -6,7 +6,8 @@ From Coq Require Import Bool.
 Record fcore := mkCore {
   c_any_none : bool;      (* ftype in (typing.Any, type(None), None) *)
   c_tv_any   : bool;      (* is_type_var_any(self.get_real_type(fname, ftype)) *)
-  c_optional : bool;      (* is_optional(ftype, resolved type params): a Union with a None member *)
+  c_optional : bool;      (* is_optional(ftype, resolved type params): a Union of exactly two members, one is None *)
+  c_union_none : bool;    (* is_union(ftype) and NoneType in get_args(ftype): any Union with a None member *)
 }.
 
 Inductive fty :=
